@@ -125,6 +125,9 @@ class Concrete:
         self.init = init
         self.plain = bool(init["plain"])
         self.layout = init.get("layout", "contig")
+        self.wr = init.get("wr", "w")
+        self.conc = conc
+        self._raw = None
         self.fields, self.shape, self.var = concretise(init, conc)
         sp = init["spell"]
         shape = self.shape
@@ -161,7 +164,26 @@ class Concrete:
                     self.enc.append(self._encodings(logical[n]))
         if self.a0.shape != tuple(shape):
             raise MachineryError("layout %s/%d built shape %s for %s" % (self.layout, self.var, self.a0.shape, shape))
-        # the parent buffer as raw memory; the bytes that are not elements of a0 get a noise pattern and must stay
+        self._frame(noise=True)
+        # writeability of the array handed to the conversions
+        if self.wr == "ro":                                  # locked by its owner
+            self.a0.setflags(write=False)
+        elif self.wr == "roview":                            # a read-only view of a writable array
+            self.writable_base = self.a0
+            self.a0 = self.a0.view()
+            self.a0.flags.writeable = False
+        elif self.wr == "frombuf":                           # immutable memory: bytes (np.frombuffer) / a mode='r' memmap
+            self._raw = self.mem.tobytes()
+            dt = self.a0.dtype
+            self.parent, self.a0 = self._embed(dt, shape)
+            self._frame(noise=False)
+            if self.a0.flags.writeable or not np.array_equal(self.mem, np.frombuffer(self._raw, dtype=np.uint8)):
+                raise MachineryError("read-only rebuild of layout %s/%d failed" % (self.layout, self.var))
+        elif self.wr != "w":
+            raise MachineryError("unknown writeability " + self.wr)
+
+    def _frame(self, noise):
+        """the parent buffer as raw memory; the bytes that are not elements of a0 get a noise pattern and must stay"""
         p = self.parent
         self.mem = (p if p.flags.c_contiguous else p.T).reshape(-1).view(np.uint8)
         if not np.shares_memory(self.mem, p) or self.mem.size != p.nbytes:
@@ -169,14 +191,31 @@ class Concrete:
         mask = np.zeros(self.mem.size, dtype=bool)
         _cover(self.mem.__array_interface__["data"][0], self.a0, mask)
         self.outside = np.flatnonzero(~mask)
-        self.mem[self.outside] = ((self.outside * 7 + 3) % 251 + 1).astype(np.uint8)
+        if noise:
+            self.mem[self.outside] = ((self.outside * 7 + 3) % 251 + 1).astype(np.uint8)
         self.rest0 = self.mem[self.outside].copy()
         self.pdtype0 = self.parent.dtype
+
+    def _alloc(self, shape, dt, order="C"):
+        """a zeroed parent buffer - or, for the read-only rebuild, the same array over the immutable copy of its memory"""
+        if self._raw is None:
+            return np.zeros(shape, dt, order=order)
+        if self.conc % 3 == 2 and tuple(shape) != ():
+            import os
+            import tempfile
+            fd, path = tempfile.mkstemp(prefix="C16-mm-", dir="/tmp")
+            try:
+                with os.fdopen(fd, "wb") as f:
+                    f.write(self._raw)
+                return np.memmap(path, dtype=dt, mode="r", shape=tuple(shape), order=order)
+            finally:
+                os.unlink(path)                              # the mapping stays valid
+        return np.ndarray(shape, dt, buffer=self._raw, order=order)     # = np.frombuffer(raw, dt).reshape(shape)
 
     def _embed(self, dt, S):
         """(parent, a0): a zeroed parent buffer and the array of dtype dt and shape S laid out in it as the layout says"""
         lay, var = self.layout, self.var
-        z = np.zeros
+        z = self._alloc
         if lay == "contig":
             p = z(S, dt)
             return p, p
@@ -208,12 +247,12 @@ class Concrete:
             return p, p[..., var]
         if lay == "fortran":                                 # F-ordered owner, transpose of a C array, window of an F buffer
             if var == 0:
-                p = z(S, dt, order="F")
+                p = z(S, dt, "F")
                 return p, p
             if var == 1:
                 p = z(S[::-1], dt)
                 return p, p.T
-            p = z((S[0], S[1] + 2), dt, order="F")
+            p = z((S[0], S[1] + 2), dt, "F")
             return p, p[:, 1:1 + S[1]]
         if lay == "zerod":                                   # 0-d window of a 1-d / 2-d buffer
             if var == 0:
@@ -330,9 +369,13 @@ def _digest(x):
         return "?"
 
 
-def observe_state(cc, objs, res, err="none", first=False):
+def observe_state(tables, objs, lins, res, err="none", first=False):
+    """project every array object alive onto the spec's variables.  tables: the Concrete of every table the caller
+    built (they all hold the same logical values), lins[j]: lineage of objs[j] (1-based index of its table's array)"""
     import esutil.numpy_util as nu
     import esutil.recfile.Util as ru
+    cc = tables[0]
+    roots = [j for j in range(len(objs)) if lins[j] == j + 1]
     arrs = []
     for j, x in enumerate(objs):
         p = cc.project_array(x)
@@ -342,10 +385,15 @@ def observe_state(cc, objs, res, err="none", first=False):
                 grp = i
                 break
         else:
-            if j > 0 and isinstance(x, np.ndarray) and np.shares_memory(cc.parent, x):
-                grp = 0                                # somewhere else in the initial array's parent buffer
+            if isinstance(x, np.ndarray) and lins[j] != j + 1:
+                for t, root in zip(tables, roots):
+                    if np.shares_memory(t.parent, x):
+                        grp = root                     # somewhere else in a table's parent buffer
+                        break
         p["grp"] = grp + 1
         p["hash"] = _digest(x) if isinstance(x, np.ndarray) else "?"
+        p["w"] = bool(x.flags.writeable) if isinstance(x, np.ndarray) else False
+        p["lin"] = lins[j]
         arrs.append(p)
     cur = objs[res]
     pred = {"err": "none", "big": [], "little": [], "rlittle": []}
@@ -371,33 +419,58 @@ def observe_state(cc, objs, res, err="none", first=False):
                     dn.append({"fn": fn, "err": "none", "decl": decl, "sig": sig})
                 except Exception as e:  # noqa
                     dn.append({"fn": fn, "err": type(e).__name__, "decl": [], "sig": ""})
-    st = {"res": res + 1, "err": err, "arrs": arrs, "rest": cc.rest(), "pred": pred, "dn": dn}
+    st = {"res": res + 1, "err": err, "arrs": arrs,
+          "rest": "intact" if all(t.rest() == "intact" for t in tables) else "changed", "pred": pred, "dn": dn}
     if first:
         st["lay"] = cc.lay()
     return st
 
 
+CALLER = ("fresh", "mut_names", "mut_shape", "mut_lock")
+
+
 def run_chain(args):
-    """execute one chain on a real array; returns the trace record"""
+    """execute one history on real arrays; returns the trace record"""
     rid, init, ops, conc = args
     import esutil.numpy_util as nu
     import esutil.recfile.Util as ru
     cc = Concrete(init, conc)
     dtype0 = str(cc.a0.dtype)
+    tables = [cc]
     objs = [cc.a0]
+    lins = [1]
     res = 0
-    st = [observe_state(cc, objs, res, first=True)]
+    st = [observe_state(tables, objs, lins, res, first=True)]
     with warnings.catch_warnings():
         warnings.simplefilter("ignore")
         for op in ops:
             arg = objs[res]
             err = "none"
+            fn = op["fn"]
+            if fn in CALLER:                       # a step of the caller between conversions
+                try:
+                    if fn == "fresh":              # another table of the same dtype: own dtype object, own buffer
+                        t = Concrete(init, conc)
+                        tables.append(t)
+                        objs.append(t.a0)
+                        lins.append(len(objs))
+                        res = len(objs) - 1
+                    elif fn == "mut_names":        # numpy's in-place rename (esutil.io.read_fits(lower=True) does this)
+                        arg.dtype.names = tuple(n.upper() for n in arg.dtype.names)
+                    elif fn == "mut_shape":
+                        arg.shape = tuple(arg.shape) + (1,)
+                    else:
+                        arg.setflags(write=False)
+                except Exception as e:  # noqa
+                    err = "caller:" + type(e).__name__
+                st.append(observe_state(tables, objs, lins, res, err))
+                continue
             try:
-                if op["fn"] == "rnative":
+                if fn == "rnative":
                     ru.to_native_inplace(arg)
                     out = arg                      # documented to work in place; nothing is returned
                 else:
-                    out = getattr(nu, FN[op["fn"]])(arg, inplace=bool(op["inplace"]), keep_dtype=bool(op["keep"]))
+                    out = getattr(nu, FN[fn])(arg, inplace=bool(op["inplace"]), keep_dtype=bool(op["keep"]))
                 if not isinstance(out, np.ndarray):
                     err = "result_not_an_array"
             except Exception as e:  # noqa
@@ -409,21 +482,26 @@ def run_chain(args):
                         break
                 else:
                     objs.append(out)
+                    lins.append(lins[res])
                     res = len(objs) - 1
-            st.append(observe_state(cc, objs, res, err))
-    return {"id": rid, "kinds": init["kinds"], "spell": init["spell"], "plain": cc.plain, "layout": cc.layout, "ops": ops,
-            "st": st, "conc": conc, "dtype": dtype0, "shape": list(cc.shape), "variant": cc.var}
+            st.append(observe_state(tables, objs, lins, res, err))
+    return {"id": rid, "kinds": init["kinds"], "spell": init["spell"], "plain": cc.plain, "layout": cc.layout, "wr": cc.wr,
+            "ops": ops, "st": st, "conc": conc, "dtype": dtype0, "shape": list(cc.shape), "variant": cc.var}
 
 
 # ---- classification of rejected steps (signatures) ---------------------------------------
-def layout_class(rec):
-    """'' for an array owning its C-contiguous buffer, else whether numpy flags the window contiguous"""
+def layout_class(rec, k=None):
+    """'' for a writable array owning its C-contiguous buffer converted without the caller stepping in; else whether
+    numpy flags the window contiguous, whether the initial array is read-only, whether the caller acted before step k"""
     lay = rec.get("layout", "contig")
-    if lay == "contig":
-        return ""
-    if lay in NONCONTIG or (lay == "recview" and rec["plain"]):
-        return "@noncontiguous_view"
-    return "@contiguous_view"
+    c = ""
+    if lay != "contig":
+        c = "@noncontiguous_view" if lay in NONCONTIG or (lay == "recview" and rec["plain"]) else "@contiguous_view"
+    if rec.get("wr", "w") != "w":
+        c += "@readonly"
+    if any(op["fn"] in CALLER for op in rec["ops"][:k]):
+        c += "@caller_steps"
+    return c
 
 
 def struct_class(rec):
@@ -442,7 +520,7 @@ def struct_class(rec):
     return c
 
 
-TRACE_KEYS = ("id", "kinds", "spell", "layout", "plain", "ops", "st")
+TRACE_KEYS = ("id", "kinds", "spell", "layout", "wr", "plain", "ops", "st")
 
 
 def judge(ctx, recs, what, pending=None):
@@ -468,12 +546,17 @@ def judge(ctx, recs, what, pending=None):
                 entry, clause = "recfile.Util.is_little_endian", "agrees_with_declared_order"
             elif clause == "predicate_error":
                 entry = "numpy_util.is_big_endian/is_little_endian"
+            elif k >= 1 and r["ops"][k - 1]["fn"] in CALLER:
+                # a caller step shows on an unrelated array: the entry point is the conversion that made them related
+                convs = [op["fn"] for op in r["ops"][:k] if op["fn"] in ENTRY]
+                entry = ENTRY[convs[-1]] if convs else "caller"
             else:
                 entry = ENTRY[r["ops"][k - 1]["fn"]] if k >= 1 else "initial"
-            case = {"kind": "chain", "init": {"plain": r["plain"], "kinds": r["kinds"], "spell": r["spell"], "layout": r["layout"]},
+            case = {"kind": "chain", "init": {"plain": r["plain"], "kinds": r["kinds"], "spell": r["spell"], "layout": r["layout"],
+                                              "wr": r["wr"]},
                     "ops": r["ops"][:k], "conc": r["conc"], "dtype": r["dtype"], "shape": r["shape"],
                     "layout_variant": r["variant"], "failing_step": k, "clause": clause}
-            emit.append((len(case["ops"]), rid, ("%s|%s|%s" % (entry, clause, struct_class(r)), layout_class(r),
+            emit.append((len(case["ops"]), rid, ("%s|%s|%s" % (entry, clause, struct_class(r)), layout_class(r, k),
                                                  "%s|%s|%s" % (entry, clause, "plain" if r["plain"] else "struct")),
                          "byte-order conversion outcome not allowed by ByteOrder.tla: step %d (%s) fails clause %s on %s%s, layout %s/%d"
                          % (k, entry, clause, r["dtype"], tuple(r["shape"]), r["layout"], r["variant"]), case))
@@ -495,7 +578,10 @@ ALLSP = {"<", ">", "=", "|"}
 ALLK = {"M", "B", "S", "N"}
 FLAT = {"M", "B", "S"}
 VIEWS = set(LAYOUTS) - {"contig"}
-BASE = dict(WithPlain=True, Kinds=ALLK, Need=set(), Spells=ALLSP, Layouts={"contig"}, InplaceFirst=False)
+ALLFN = {"native", "big", "little", "swap", "rnative"}
+RO = {"ro", "roview", "frombuf"}
+BASE = dict(WithPlain=True, Kinds=ALLK, Need=set(), Spells=ALLSP, Layouts={"contig"}, Writes={"w"}, Fns=ALLFN, CallerOps=set(),
+            InplaceFirst=False)
 
 
 def model_runs(tier):
@@ -516,6 +602,15 @@ def model_runs(tier):
             # wider tables, one step
             (c(MinFields=3, MaxFields=3, MaxDepth=1), 2),
             (c(MinFields=2, MaxFields=3, MaxDepth=1, Kinds={"M", "S", "N"}, Layouts=VIEWS, Spells={"<", ">"}), 1),
+            # non-writable arrays (locked, read-only view of a writable array, immutable memory) in every layout: one step;
+            # and the fall-back after a refused in-place call
+            (c(MinFields=1, MaxFields=1, MaxDepth=1, Layouts=set(LAYOUTS), Writes=RO, Spells={"<", ">"}), 1),
+            (c(MinFields=1, MaxFields=1, MaxDepth=2, Kinds={"M", "S"}, Layouts={"contig", "strided"}, Writes=RO, Spells={">", "="},
+               InplaceFirst=True), 1),
+            # histories in which the caller steps in between conversions (another table of the same dtype, fields renamed
+            # in place, shape changed, array locked)
+            (c(MinFields=1, MaxFields=2, MaxDepth=4, WithPlain=False, Kinds={"M", "S"}, Need={"M"}, Spells={">"}, Fns={"swap"},
+               CallerOps=set(CALLER)), 1),
         ]
     return [
         (c(MinFields=1, MaxFields=1, MaxDepth=1), "sweep"),
@@ -526,21 +621,46 @@ def model_runs(tier):
         (c(MinFields=1, MaxFields=1, MaxDepth=3, Layouts=VIEWS, Spells={">"}, InplaceFirst=True), 1),
         (c(MinFields=1, MaxFields=2, MaxDepth=2, Layouts=VIEWS, Spells={"<", ">"}, InplaceFirst=True), 1),
         (c(MinFields=3, MaxFields=3, MaxDepth=1, Layouts=VIEWS), 1),
+        (c(MinFields=1, MaxFields=2, MaxDepth=1, Layouts=set(LAYOUTS), Writes=RO), 1),
+        (c(MinFields=1, MaxFields=1, MaxDepth=3, Kinds={"M", "S", "N"}, Layouts={"contig", "strided"}, Writes=RO, Spells={">", "="},
+           InplaceFirst=True), 1),
+        (c(MinFields=1, MaxFields=2, MaxDepth=4, WithPlain=False, Kinds={"M", "S"}, Need={"M"}, Spells={">", "="},
+           Fns={"swap", "native"}, CallerOps=set(CALLER)), 1),
     ]
 
 
+def sim_runs(tier):
+    """(constants, number of walks, history length, histories kept) of the tlc -simulate exports: long histories over the
+    whole alphabet (every conversion, refusals, caller steps)"""
+    def c(**kw):
+        return dict(BASE, Layouts=set(LAYOUTS), Writes=set(RO) | {"w"}, CallerOps=set(CALLER), **kw)
+    if tier == "quick":
+        return [(c(MinFields=1, MaxFields=3, MaxDepth=10, Spells={"<", ">"}), 150, 10, 1500),
+                (c(MinFields=1, MaxFields=2, MaxDepth=20, WithPlain=False, Kinds={"M", "S"}, Spells={">"}, Layouts={"contig"},
+                   Writes={"w"}), 60, 20, 500)]
+    return [(c(MinFields=1, MaxFields=3, MaxDepth=10), 3000, 10, 30000),
+            (c(MinFields=1, MaxFields=2, MaxDepth=30, WithPlain=False, Kinds={"M", "S", "N"}, Spells={">", "="}, Layouts={"contig", "strided"},
+               Writes={"w", "ro"}), 600, 30, 6000)]
+
+
 def describe(c):
-    return "fields %d..%d%s kinds %s%s spells %s layouts %s depth %d%s" % (
+    return "fields %d..%d%s kinds %s%s spells %s layouts %s%s%s%s depth %d%s" % (
         c["MinFields"], c["MaxFields"], "+plain" if c["WithPlain"] else "", "".join(sorted(c["Kinds"])),
         (" incl. " + "".join(sorted(c["Need"]))) if c["Need"] else "", "".join(sorted(c["Spells"])),
-        "contig" if c["Layouts"] == {"contig"} else "views" if c["Layouts"] == VIEWS else ",".join(sorted(c["Layouts"])),
+        "contig" if c["Layouts"] == {"contig"} else "views" if c["Layouts"] == VIEWS else "all" if c["Layouts"] == set(LAYOUTS)
+        else ",".join(sorted(c["Layouts"])),
+        "" if c["Writes"] == {"w"} else " writeability " + ",".join(sorted(c["Writes"])),
+        "" if c["Fns"] == ALLFN else " conversions " + ",".join(sorted(c["Fns"])),
+        " caller steps" if c["CallerOps"] else "",
         c["MaxDepth"], " (in place before the last step)" if c["InplaceFirst"] else "")
 
 
 THEOREMS = ["SpecAccepted", "InitAccepted", "ValuePreservedThm", "ValueCorrectThm", "DeclaredThm", "IdempotentThm",
-            "SwapTwiceThm", "AliasThm", "UniformInv", "UntouchedThm", "RestThm", "MechRefines"]
+            "SwapTwiceThm", "AliasThm", "RejectThm", "LineageThm", "StructureThm", "UniformInv", "UntouchedThm", "RestThm",
+            "MechRefines"]
 ACTIONS = ["ChooseKinds", "ChooseSpell", "ChooseLayout", "ToNative", "ToBig", "ToLittle", "Swap", "RecfileNativeInplace"]
-MECH = dict(FixedDetect=True, NestedDetect=True, RetypeAlways=True)
+CALLER_ACTIONS = ["Fresh", "MutNames", "MutShape", "MutLock"]
+MECH = dict(FixedDetect=True, NestedDetect=True, RetypeAlways=True, SwapFirst=True, CacheDtype=False)
 
 
 def sweep_concs(init, mode, salt):
@@ -567,11 +687,14 @@ def random_chains(rng, n, start_id):
         nf = 1 if plain else rng.choice([1, 2, 3, 4, 5, 6, 8])
         kinds = [rng.choice(["M", "M", "B", "S"] if plain else ["M", "M", "B", "S", "N"]) for _ in range(nf)]
         init = {"plain": plain, "kinds": kinds, "spell": rng.choice(["<", ">", "=", "|"]),
-                "layout": rng.choice(LAYOUTS + ["contig"])}
+                "layout": rng.choice(LAYOUTS + ["contig"]), "wr": rng.choice(["w", "w", "w", "ro", "roview", "frombuf"])}
         ops = []
+        caller = rng.random() < 0.3
         for _ in range(rng.choice([1, 2, 4, 6, 8])):
             fn = rng.choice(["native", "big", "little", "swap", "swap", "rnative"])
-            if fn == "rnative":
+            if caller and rng.random() < 0.35:
+                ops.append({"fn": rng.choice(CALLER if not plain else ["fresh", "mut_shape", "mut_lock"]), "inplace": False, "keep": False})
+            elif fn == "rnative":
                 ops.append({"fn": fn, "inplace": True, "keep": False})
             else:
                 ops.append({"fn": fn, "inplace": rng.random() < 0.6, "keep": rng.random() < 0.3})
@@ -580,7 +703,7 @@ def random_chains(rng, n, start_id):
 
 
 def _count(ctx, r):
-    ctx.count({"init": r["kinds"], "plain": r["plain"], "spell": r["spell"], "layout": [r["layout"], r["variant"]], "ops": r["ops"],
+    ctx.count({"init": r["kinds"], "plain": r["plain"], "spell": r["spell"], "layout": [r["layout"], r["variant"], r["wr"]], "ops": r["ops"],
                "dtype": r["dtype"], "shape": r["shape"]})
 
 
@@ -590,29 +713,39 @@ def run(ctx):
     #    The layout enters the property only through the frame (RestThm) and the mechanism only through numpy's
     #    contiguity flags, so the deep runs use one layout of each contiguity class and a shallower run uses all.
     two = {"contig", "strided"}
-    full = dict(BASE, MinFields=1, MaxFields=2, MaxDepth=2 if ctx.quick else 3, Layouts=two, DoExport=False, **MECH)
-    wide = dict(full, MinFields=3, MaxFields=3, MaxDepth=1 if ctx.quick else 2,
+    full = dict(BASE, MinFields=1, MaxFields=2, MaxDepth=2 if ctx.quick else 3, Layouts=two, Writes={"w", "ro"}, DoExport=False, **MECH)
+    wide = dict(full, MinFields=3, MaxFields=3, MaxDepth=1 if ctx.quick else 2, Writes={"w"},
                 Layouts=set(LAYOUTS) if ctx.quick else {"contig", "strided", "recview", "fortran"})
-    ctx.tlc("ByteOrderMC.tla", what="theorems + mechanism refines property (this machine's order, chains)",
+    hist = dict(full, MinFields=1, MaxFields=2, WithPlain=False, Kinds={"M", "S"}, Spells={">", "="}, Layouts={"contig"},
+                Writes={"w"}, Fns={"swap", "native"}, CallerOps=set(CALLER), MaxDepth=3 if ctx.quick else 4)
+    ctx.tlc("ByteOrderMC.tla", what="theorems + mechanism refines property (this machine's order, chains, refusals)",
             cfg_text=cfg(constants=dict(full, MachineLE=MACHINE_LE), invariants=THEOREMS),
-            workers=16, require=ACTIONS, timeout=3000)
+            workers=16, require=ACTIONS + ["Reject"], timeout=3000)
     ctx.tlc("ByteOrderMC.tla", what="theorems + mechanism refines property (this machine's order, 3 fields, more layouts)",
             cfg_text=cfg(constants=dict(wide, MachineLE=MACHINE_LE), invariants=THEOREMS),
             workers=16, require=ACTIONS, timeout=3000)
+    ctx.tlc("ByteOrderMC.tla", what="theorems (histories with caller steps: second table, rename, reshape, lock)",
+            cfg_text=cfg(constants=dict(hist, MachineLE=MACHINE_LE), invariants=THEOREMS),
+            workers=16, require=["ChooseKinds", "ChooseSpell", "ChooseLayout", "ToNative", "Swap", "Reject"] + CALLER_ACTIONS, timeout=3000)
     ctx.tlc("ByteOrderMC.tla", what="theorems + mechanism refines property (other machine order)",
-            cfg_text=cfg(constants=dict(full, MachineLE=not MACHINE_LE, MaxDepth=2, Layouts={"strided"} if ctx.quick else set(LAYOUTS)),
+            cfg_text=cfg(constants=dict(full, MachineLE=not MACHINE_LE, MaxDepth=2, Writes={"ro"} if ctx.quick else set(RO) | {"w"},
+                                        Layouts={"strided"} if ctx.quick else set(LAYOUTS)),
                          invariants=THEOREMS),
-            workers=16, require=ACTIONS, timeout=3000)
-    # 1b. non-vacuity of MechRefines: each deviating mechanism variant violates it
+            workers=16, require=ACTIONS + ["Reject"], timeout=3000)
+    # 1b. non-vacuity: each deviating mechanism / model variant violates the theorem that is about it
     small = dict(full, MachineLE=MACHINE_LE, MaxFields=2, MaxDepth=1)
-    for what, dev in (("unrepaired order detection (fields without byte order decisive)", dict(FixedDetect=False)),
-                      ("order detection blind to nested records", dict(NestedDetect=False)),
-                      ("dtype assigned only to contiguous arrays, a re-typed view returned otherwise", dict(RetypeAlways=False))):
-        rb = ctx.tlc("ByteOrderMC.tla", what="self-test: %s violates MechRefines" % what,
-                     cfg_text=cfg(constants=dict(small, **dev), invariants=["MechRefines"]),
+    leak = dict(hist, MachineLE=MACHINE_LE, MaxFields=1, Spells={">"}, Fns={"swap"}, CallerOps={"fresh"}, MaxDepth=3)
+    for what, base, dev, thm in (
+            ("unrepaired order detection (fields without byte order decisive)", small, dict(FixedDetect=False), "MechRefines"),
+            ("order detection blind to nested records", small, dict(NestedDetect=False), "MechRefines"),
+            ("dtype assigned only to contiguous arrays, a re-typed view returned otherwise", small, dict(RetypeAlways=False), "MechRefines"),
+            ("dtype assigned before the swap that a read-only array refuses", small, dict(SwapFirst=False), "MechRefines"),
+            ("swapped dtype object memoised per source dtype", leak, dict(CacheDtype=True), "LineageThm")):
+        rb = ctx.tlc("ByteOrderMC.tla", what="self-test: %s violates %s" % (what, thm),
+                     cfg_text=cfg(constants=dict(base, **dev), invariants=[thm]),
                      workers=4, allow_violation=True, coverage=False)
-        if "MechRefines" not in rb.violated:
-            raise MachineryError("self-test failed: MechRefines not violated by the deviating mechanism (%s)" % what)
+        if thm not in rb.violated:
+            raise MachineryError("self-test failed: %s not violated by the deviating variant (%s)" % (thm, what))
     # 2. export every behaviour (spec -> code)
     runs = model_runs(ctx.tier)
 
@@ -624,8 +757,31 @@ def run(ctx):
         if not cases:
             raise MachineryError("no chains exported for %s" % consts)
         return cases
+    sims = sim_runs(ctx.tier)
+
+    def simulate(arg):
+        k, (consts, num, depth, keep) = arg
+        r = ctx.tlc("ByteOrderMC.tla", what="simulate %d histories of %d steps: %s" % (num, depth, describe(consts)),
+                    cfg_text=cfg(constants=dict(consts, MachineLE=MACHINE_LE, DoExport=True, **MECH), constraints=["Export"]),
+                    workers=1, coverage=False, timeout=3000, simulate="num=%d" % num,
+                    extra=["-depth", str(depth + 4), "-seed", str(ctx.seed + 1 + k)])
+        # (the export constraint is evaluated on every candidate successor of the last step: many histories per walk,
+        # differing in their last step)
+        cases = {json.dumps(c, sort_keys=True): c for c in r.records.get("CASE", [])}
+        cases = [cases[key] for key in sorted(cases)]
+        if len(cases) < num // 2:
+            raise MachineryError("simulation exported only %d histories (%s)" % (len(cases), describe(consts)))
+        if len(cases) > keep:
+            rng = random.Random(ctx.seed * 104729 + 7 + k)
+            cases = [cases[i] for i in sorted(rng.sample(range(len(cases)), keep))]
+        return cases
     with ThreadPoolExecutor(4) as ex:
+        fsim = [ex.submit(simulate, a) for a in enumerate(sims)]
         exported = list(ex.map(export, [c for c, _ in runs]))
+        simulated = [f.result() for f in fsim]
+    runs = runs + [(c, 1) for c, _, _, _ in sims]
+    exported = exported + simulated
+    nsim = sum(len(x) for x in simulated)
     jobs = []
     nexported = 0
     seen_layouts = set()
@@ -639,12 +795,18 @@ def run(ctx):
                 jobs.append((len(jobs) + 1, c["init"], c["ops"], conc))
     if seen_layouts != set(LAYOUTS):
         raise MachineryError("layouts exported %s, expected all of %s" % (sorted(seen_layouts), LAYOUTS))
-    ctx.log("replaying %d chains (%d exported behaviours)" % (len(jobs), nexported))
+    # vacuity guards of the new dimensions: refusals and every caller step must occur among the histories to replay
+    seen_fns = {op["fn"] for j in jobs for op in j[2]}
+    nrej = sum(1 for cases in exported for c in cases if any(e["err"] != "none" for e in c["exp"]))
+    if not set(CALLER) <= seen_fns or nrej == 0 or {j[1]["wr"] for j in jobs} != set(RO) | {"w"}:
+        raise MachineryError("exported histories lack caller steps / refusals / a writeability: %s, %d" % (sorted(seen_fns), nrej))
+    ctx.log("replaying %d chains (%d exported behaviours, %d of them simulated long histories, %d with a refused call)"
+            % (len(jobs), nexported, nsim, nrej))
     recs = pmap(run_chain, jobs)
     for r in recs:
         _count(ctx, r)
     for r in recs[:: max(1, len(recs) // 4)][:4]:
-        ctx.sample({"dtype": r["dtype"], "shape": r["shape"], "layout": r["layout"], "ops": r["ops"],
+        ctx.sample({"dtype": r["dtype"], "shape": r["shape"], "layout": r["layout"], "writeability": r["wr"], "ops": r["ops"],
                     "observed_after_each_step": [{"res": s["res"], "rest": s["rest"], "current": s["arrs"][s["res"] - 1]} for s in r["st"]]})
     chunk = 50000
     rejected = set()
@@ -665,12 +827,15 @@ def run(ctx):
                 "sub-array shapes, array shape (0-d..2-d) and layout variant rotate through the catalogue (%d multi-byte, %d single-byte, "
                 "%d string types, nested records; layouts %s with %d concrete variants); one-step chains on one-field arrays are run for "
                 "every type x shape (owning arrays) and every type (views); plus %d seeded chains of up to 8 steps on tables of up to 8 "
-                "fields in every layout; a case is distinct by (abstract array, chain, concrete dtype, shape, layout variant) and "
-                "non-trivial always"
+                "fields in every layout and writeability, some with caller steps; histories include calls refused for non-writable arrays "
+                "(judged as stutter steps) and steps of the caller between conversions (second table of the same dtype, in-place rename "
+                "of fields, reshape, lock), long ones from tlc -simulate; a case is distinct by (abstract array, history, concrete dtype, "
+                "shape, layout variant, writeability) and non-trivial always"
                 % ("; ".join(describe(c) for c, _ in runs), len(MULTI), len(SINGLE), len(STRS), ", ".join(LAYOUTS),
                    sum(NVAR.values()), nrand))
     ctx.exhaustive = True
-    ctx.note(exported_behaviours=nexported, replayed_chains=len(recs), seeded_chains=nrand, machine_little_endian=MACHINE_LE,
+    ctx.note(exported_behaviours=nexported, simulated_histories=nsim, histories_with_refused_call=nrej,
+             replayed_chains=len(recs), seeded_chains=nrand, machine_little_endian=MACHINE_LE,
              numpy_version=np.__version__)
     ctx.assumptions = [
         "physical order of a field = which of the two encodings of its known logical values its bytes equal (values are never byte palindromes)",
@@ -679,6 +844,8 @@ def run(ctx):
         "numpy canonicalises '<'/'>' to '=' for the machine's own order, so on one machine only three of the four declared-order characters can be observed on a dtype; the specification is checked for both machine orders",
         "the statement does not restrict the memory layout of the array: all clauses are demanded of strided / reversed / column / F-ordered / 0-d / record-field views, and 'in the caller's buffer' is read with its frame (bytes of the parent buffer that are not elements of the array, and the parent's dtype, stay)",
         "a nested record counts as a structured field whose multi-byte members share the table's order; descriptor helpers are judged on flat descriptors only",
+        "a call may raise only when asked to convert a non-writable array in place (the statement is silent there: raising and succeeding are both accepted); a refused call must leave every array's bytes, dtype, flags and buffer as they were",
+        "numpy lets an array, its views and its copies share one dtype object, so an in-place rename by the caller may show on arrays of the same lineage (accepted); it must not show on arrays derived from another table, and every conversion must return its own argument's field names and shape",
     ]
 
 
